@@ -16,7 +16,9 @@ Main results (all for EVERY expression tree, by structural induction — no dept
 * `norm_eq_self`, `norm_parserShaped`, `norm_norm` : trees of the parser's shape are fixed points of `norm`
 
 Hypotheses: `finiteLits e` (finite literals without `-0.0` components) and the NumTok hypothesis
-`numTokOk F e` (see `QV.ExprPrint`).
+`numTokOk F e` (see `QV.ExprPrint`).  `printTop` takes region names to be `Identifier` tokens; what the real
+lexer returns is `printExprTokens` (= `printTop stdFmt` with names classified by `keyword_or_identifier`),
+equal to `printTop stdFmt e` when `plainNames e` (`printExprTokens_eq`).
 -/
 namespace QV.ExprRoundTrip
 open QV QV.Tok QV.Ast QV.Parse QV.ExprPrint
@@ -968,5 +970,84 @@ theorem norm_parserShaped : ∀ e : PExpr, finiteLits e = true → parserShaped 
 /-- `norm` is idempotent: a second print → parse round changes nothing -/
 theorem norm_norm (e : PExpr) (h : finiteLits e = true) : norm (norm e) = norm e :=
   norm_eq_self _ (norm_parserShaped e h)
+
+/-! ## names: the lexer's classification changes nothing unless a region is named like a reserved word -/
+
+theorem keywordOrIdentifier_plain (s : List Char) (h : isReservedWord s = false) :
+    keywordOrIdentifier s = .identifier s := by
+  simp only [isReservedWord, Bool.or_eq_false_iff, Option.isSome_eq_false_iff, Option.isNone_iff_eq_none] at h
+  obtain ⟨⟨⟨h1, h2⟩, h3⟩, h4⟩ := h
+  simp [keywordOrIdentifier, h1, h2, h3, h4]
+
+theorem relex_operator (o : Operator) : relex (.operator o) = .operator o := rfl
+theorem relex_integer (n : Nat) : relex (.integer n) = .integer n := rfl
+theorem relex_float (b : Nat) : relex (.float b) = .float b := rfl
+theorem relex_variable (x : List Char) : relex (.variable x) = .variable x := rfl
+theorem relex_lParenthesis : relex .lParenthesis = .lParenthesis := rfl
+theorem relex_rParenthesis : relex .rParenthesis = .rParenthesis := rfl
+theorem relex_lBracket : relex .lBracket = .lBracket := rfl
+theorem relex_rBracket : relex .rBracket = .rBracket := rfl
+theorem relex_tokI : relex tokI = tokI := by decide
+theorem relex_tokPi : relex tokPi = tokPi := by decide
+theorem relex_fnName (f : ExprFn) : relex (.identifier (fnName f)) = .identifier (fnName f) := by
+  cases f <;> decide
+
+theorem relex_stdReal (b : Nat) : relex (stdFmt.real b) = stdFmt.real b := by
+  simp only [stdFmt]
+  cases intValue? b with
+  | none => rfl
+  | some n => simp only; split <;> rfl
+
+theorem relex_stdImag (b : Nat) : relex (stdFmt.imag b) = stdFmt.imag b := rfl
+
+theorem map_relex_signedReal (b : Nat) :
+    (signedToks stdFmt.real b).map relex = signedToks stdFmt.real b := by
+  simp only [signedToks]; split <;> simp [relex_operator, relex_stdReal]
+
+theorem map_relex_signedImag (b : Nat) :
+    (signedToks stdFmt.imag b).map relex = signedToks stdFmt.imag b := by
+  simp only [signedToks]; split <;> simp [relex_operator, relex_stdImag]
+
+theorem map_relex_complexToks (z : CBits) : (complexToks stdFmt z).map relex = complexToks stdFmt z := by
+  simp only [complexToks]
+  split
+  · rfl
+  · split
+    · exact map_relex_signedReal _
+    · split
+      · simp [map_relex_signedImag, relex_tokI]
+      · split <;> simp [map_relex_signedReal, map_relex_signedImag, relex_tokI, relex_operator]
+
+theorem map_relex_wrapIf (b : Bool) (ts : List Token) :
+    (wrapIf b ts).map relex = wrapIf b (ts.map relex) := by
+  cases b <;> simp [wrapIf, relex_lParenthesis, relex_rParenthesis]
+
+/-- under `plainNames` the tokens the real lexer returns are the tokens of the idealised printer -/
+theorem printExprTokens_eq : ∀ e : PExpr, plainNames e = true → printExprTokens e = printTop stdFmt e := by
+  intro e
+  unfold printExprTokens
+  induction e with
+  | address r =>
+    intro h
+    have hr : isReservedWord r.name.toList = false := by simpa [plainNames, allAddrs] using h
+    have h1 : relex (.identifier r.name.toList) = .identifier r.name.toList := keywordOrIdentifier_plain _ hr
+    simp [printTop, h1, relex_lBracket, relex_rBracket, relex_integer]
+  | call f x ih =>
+    intro h
+    have hx := ih (by simpa [plainNames, allAddrs] using h)
+    simp [printTop, hx, relex_fnName, relex_lParenthesis, relex_rParenthesis]
+  | bin l o r ihl ihr =>
+    intro h
+    simp only [plainNames, allAddrs, Bool.and_eq_true] at h
+    have hl := ihl h.1
+    have hr := ihr h.2
+    simp [printTop, map_relex_wrapIf, hl, hr, relex_operator]
+  | number z => intro _; exact map_relex_complexToks z
+  | pi => intro _; simp [printTop, relex_tokPi]
+  | pre op x ih =>
+    intro h
+    have hx := ih (by simpa [plainNames, allAddrs] using h)
+    cases op <;> simp [printTop, prefixToks, map_relex_wrapIf, hx, relex_operator]
+  | var x => intro _; rfl
 
 end QV.ExprRoundTrip
